@@ -38,7 +38,20 @@ func runConcParams(fields []string) string {
 	old := runtime.GOMAXPROCS(procs)
 	defer runtime.GOMAXPROCS(old)
 
-	f, _ := fox.New(fox.WithIgnoreTrailingSlash(true))
+	// requests marked X-Wrap run on a CloneWith copy (the documented way to wrap the ResponseWriter), which is a
+	// second pooled context alive at the same time and returned to the pool afterwards
+	wrap := func(next fox.HandlerFunc) fox.HandlerFunc {
+		return func(c fox.Context) {
+			if c.Header("X-Wrap") == "" {
+				next(c)
+				return
+			}
+			cc := c.CloneWith(c.Writer(), c.Request())
+			defer cc.Close()
+			next(cc)
+		}
+	}
+	f, _ := fox.New(fox.WithIgnoreTrailingSlash(true), fox.WithMiddleware(wrap))
 	var bad atomic.Int64
 	var first atomic.Value
 	report := func(s string) {
@@ -52,6 +65,13 @@ func runConcParams(fields []string) string {
 		got := c.Pattern() + "|" + showParams(slices.Collect(c.Params()))
 		if got != want {
 			report("handler saw " + got + " want " + want)
+		}
+		if c.Header("X-Wrap") != "" {
+			// still the same after other requests had a chance to run
+			runtime.Gosched()
+			if got2 := c.Pattern() + "|" + showParams(slices.Collect(c.Params())); got2 != want {
+				report("handler saw " + got2 + " (second look) want " + want)
+			}
 		}
 	}
 	type rt struct{ pat string }
@@ -131,6 +151,9 @@ func runConcParams(fields []string) string {
 				}
 				req := newReq("GET", host, path)
 				req.Header.Set("X-Want", want)
+				if r.Chance(35) {
+					req.Header.Set("X-Wrap", "1")
+				}
 				switch r.Intn(3) {
 				case 0:
 					f.ServeHTTP(newRecWriter(), req)
